@@ -463,6 +463,7 @@ func c18Inferable(r *core.Run, rng *rand.Rand) {
 	p1, p2 := rng.Intn(10), rng.Intn(10)
 	enumA := "Enum8('a' = 1, 'b' = 2, 'c' = 3)"
 	enumB := "Enum8('x' = 1, 'y' = 2, 'z' = 3)"
+	enumC := `Enum8('tab\tsep' = 1, 'C:\\dir' = 2, 'it\'s' = 3)`
 	type tc struct {
 		name   string
 		types  []string // successive block types
@@ -479,6 +480,9 @@ func c18Inferable(r *core.Run, rng *rand.Rand) {
 			return proto.ColTuple{new(proto.ColDateTime64), new(proto.ColEnum)}
 		}},
 		{"Enum", []string{enumA, enumB}, func() proto.ColResult { return new(proto.ColEnum) }},
+		{"Enum(escaped names)", []string{enumC, enumA, enumC}, func() proto.ColResult { return new(proto.ColEnum) }},
+		{"Array(Enum escaped names)", []string{"Array(" + enumC + ")", "Array(" + enumB + ")"}, func() proto.ColResult { return proto.NewArray[string](new(proto.ColEnum)) }},
+		{"AutoResult(Enum escaped names)", []string{enumC, enumB}, func() proto.ColResult { return &proto.ColAuto{} }},
 		{"Array(Enum)", []string{"Array(" + enumA + ")", "Array(" + enumB + ")"}, func() proto.ColResult { return proto.NewArray[string](new(proto.ColEnum)) }},
 		{"DateTime", []string{"DateTime", fmt.Sprintf("DateTime('%s')", zone)}, func() proto.ColResult { return new(proto.ColDateTime) }},
 		{"AutoResult", []string{fmt.Sprintf("DateTime64(%d)", p1), fmt.Sprintf("DateTime64(%d)", p2)}, func() proto.ColResult { return &proto.ColAuto{} }},
